@@ -1019,15 +1019,21 @@ static htp_status_t htp_martp_process_aside(htp_mpartp_t *parser, int matched) {
                 if (first) {
                     first = 0;
 
+                    // The candidate position refers to the first piece that was set aside. If
+                    // storing that piece failed (out of memory) the first piece we have is a
+                    // later, possibly shorter one; never look beyond it.
+                    size_t candidate_pos = parser->boundary_candidate_pos;
+                    if (candidate_pos > bstr_len(b)) candidate_pos = bstr_len(b);
+
                     // Split the first chunk.
 
                     if (!matched) {
                         // In line mode, we are OK with line endings.
-                        parser->handle_data(parser, bstr_ptr(b), parser->boundary_candidate_pos, /* line */ 1);
+                        parser->handle_data(parser, bstr_ptr(b), candidate_pos, /* line */ 1);
                     } else {
                         // But if there was a match, the line ending belongs to the boundary.
                         unsigned char *dx = bstr_ptr(b);
-                        size_t lx = parser->boundary_candidate_pos;
+                        size_t lx = candidate_pos;
 
                         // Remove LF or CRLF.
                         if ((lx > 0) && (dx[lx - 1] == LF)) {
@@ -1044,8 +1050,8 @@ static htp_status_t htp_martp_process_aside(htp_mpartp_t *parser, int matched) {
                     // The second part of the split chunks belongs to the boundary
                     // when matched, data otherwise.
                     if (!matched) {
-                        parser->handle_data(parser, bstr_ptr(b) + parser->boundary_candidate_pos,
-                                bstr_len(b) - parser->boundary_candidate_pos, /* not a line */ 0);
+                        parser->handle_data(parser, bstr_ptr(b) + candidate_pos,
+                                bstr_len(b) - candidate_pos, /* not a line */ 0);
                     }
                 } else {
                     // Do not send data if there was a boundary match. The stored
